@@ -94,6 +94,43 @@ def _ip6_small_packed():
     raise Unsupported("net.ipaddress._pack: unrecognised representation of small IPv6 addresses")
 
 
+def _code_names(code):
+    names = set(code.co_names)
+    for c in code.co_consts:
+        if hasattr(c, "co_names"):
+            names |= _code_names(c)
+    return names
+
+
+def _pack_is_config_free(base, packer_mod):
+    """What is written must not depend on the comparison configuration: Record._pack / GroupedRecord._pack leave fields
+    out only when the caller passes excluded_fields, and RecordPacker.pack_obj passes none.
+    True  -> neither _pack body reads IGNORE_FIELDS_FOR_COMPARISON (or any other module global besides FieldType) and
+             pack_obj calls _pack without excluded_fields
+    False -> one of them reads the comparison configuration."""
+    reads = False
+    for cls in (base.Record, base.GroupedRecord):
+        fn = cls.__dict__.get("_pack")
+        if fn is None:
+            raise Unsupported("%s._pack not found" % cls.__name__)
+        names = _code_names(fn.__code__)
+        module_globals = {n for n in names if n in vars(base) and not n.startswith("__") and n not in vars(__import__("builtins"))}
+        if module_globals - {"FieldType"}:
+            if "IGNORE_FIELDS_FOR_COMPARISON" in module_globals:
+                reads = True
+            else:
+                raise Unsupported("%s._pack reads module globals %s" % (cls.__name__, sorted(module_globals - {"FieldType"})))
+        sig = inspect.signature(fn)
+        if "excluded_fields" not in sig.parameters or sig.parameters["excluded_fields"].default is not None:
+            raise Unsupported("%s._pack: excluded_fields parameter missing or its default is not None" % cls.__name__)
+    src = textwrap.dedent(inspect.getsource(packer_mod.RecordPacker.pack_obj))
+    for node in ast.walk(ast.parse(src)):
+        if isinstance(node, ast.Call) and isinstance(node.func, ast.Attribute) and node.func.attr == "_pack":
+            if any(kw.arg in ("excluded_fields", None) for kw in node.keywords) or len(node.args) > 1:
+                raise Unsupported("RecordPacker.pack_obj passes excluded_fields to _pack (line %d)" % node.lineno)
+    return not reads
+
+
 def gen_packer():
     import flow.record.base as base
     import flow.record.packer as packer
@@ -130,6 +167,8 @@ def gen_packer():
                 if isinstance(t, ast.Attribute) and isinstance(t.value, ast.Name) and t.value.id == "self"}
     out += "Definition packer_registry_is_instance_state : bool := %s.\n" % cbool(
         "descriptors" in assigned and "descriptors" not in cls.__dict__)
+    out += "(* what is written does not depend on the ignored-fields configuration of record comparison *)\n"
+    out += "Definition pack_is_config_free : bool := %s.\n" % cbool(_pack_is_config_free(base, packer))
     write_if_changed(GEN / "Gen_packer.v", out)
 
 
